@@ -111,6 +111,7 @@ class Interp:
         self.concrete_loops = False
         self.name_intervals = True
         self.symbolic_tables = None     # id(list) -> name: lookups with a bit-field index stay symbolic
+        self.const_override = None      # qualified global name -> value: analyse the code for another value of a constant
         self.callsites_seen = set()
 
     # ------------------------------------------------------------------ util
@@ -176,6 +177,8 @@ class Interp:
             return v
         # constant global tables come straight from the facts
         if isinstance(obj, str) and obj.startswith('G:'):
+            if self.const_override and obj[2:] in self.const_override and not path:
+                return C(self.const_override[obj[2:]])
             g = self.prog.globals.get(obj[2:])
             if g is not None and g.get('const') and 'value' in g:
                 return self._table_load(g['value'], path, st)
@@ -386,8 +389,18 @@ class Interp:
             return [(st, TOP)]
         k = n['k']
         if 'cv' in n and k not in ('CallExpr',):
-            return [(st, C(n['cv']))]
-        if 'cvs' in n:
+            if not self.const_override or k in ('IntegerLiteral', 'CharacterLiteral', 'CXXBoolLiteralExpr', 'UnaryExprOrTypeTraitExpr'):
+                return [(st, C(n['cv']))]
+            if k == 'DeclRefExpr':
+                if n.get('glob') and n['d'][2:] in self.const_override:
+                    return [(st, C(self.const_override[n['d'][2:]]))]
+                return [(st, C(n['cv']))]
+            if k == 'MemberExpr' and n.get('mk') == 'Var':
+                if n.get('q') in self.const_override:
+                    return [(st, C(self.const_override[n['q']]))]
+                return [(st, C(n['cv']))]
+            # a folded constant may depend on an overridden global: evaluate structurally
+        elif 'cvs' in n:
             return [(st, C(int(n['cvs'])))]
         m = getattr(self, 'ev_' + k, None)
         if m is None:
